@@ -391,3 +391,6 @@ def assigned_writers(chk, repo):
     chk.ob("R25.5", sym3, "other failures reach the requesters as the "
            "exception that occurred", ok, gen[0] if gen else h,
            "future.set_exception(e) with the caught object")
+
+# added rules (appended to the explanation the evidence file carries)
+EXPLANATION += (" " + "Added during the build (DESIGN.md 4.31, second table): check-then-add on the CFG whatever the search looks like; assigned_address by abstract execution (18 cases); initialize() is given an explicit address only from the caller's own parameter.")
